@@ -93,6 +93,7 @@ struct QsEngine : Engine {
 		}
 		if (p.cfg == MT_TICKET && rng.chance(1, 3)) p.knobs["age"] = (int64_t)((rng.chance(1, 2) ? 0xFFFFFFFFu : 0x7FFFFFFFu) - (uint32_t)rng.below(6)); // aged domain mutex
 		if (rng.chance(1, 4)) p.knobs["periods"] = (int64_t)(0x100000000ull - 1 - rng.below(4)); // a domain that has seen ~2^32 grace periods
+		{ Rng ar; ar.seed(p.seed ^ 0x41474544ull); if (p.knobs.count("periods") && ar.chance(1, 3)) p.knobs["periods"] = (int64_t)(0x7FFFFFFFFFFFFFFFull - ar.below(5)); } // ... or ~2^63 (the sign bit of a 64-bit counter; knob values are signed, so 2^64 is not offered)
 		// offline() of an agent that holds a deferred period is rejected by an assertion in the unchanged tree (documented TODO): normally the
 		// harness skips that operation; in one plan of eight it is issued anyway — a tree that still rejects it ends the run without a verdict
 		// (panic_is_stop), a tree that accepts it is judged like any other history
@@ -127,7 +128,7 @@ struct QsEngine : Engine {
 		objs.clear(); node_sz = sut_node_size();
 		for (int t = 0; t < MAXT; t++) ag[t] = Agent();
 		dom = obj_alloc(sut_domain_size(mt), 64);
-		sut_domain_construct(mt, dom);
+		sut_domain_construct(mt, dom, (int)((p.seed >> 4) & 1));
 		if (p.knobs.count("periods")) { if (sut_domain_age(mt, dom, (uint64_t)p.knob("periods"))) probe(P_aged_domain); }
 		for (int t = 1; t <= nagents; t++) ag[t].mem = obj_alloc(sut_agent_size(mt), 64);
 		cell = (char *)obj_alloc(8, 64);
